@@ -237,6 +237,8 @@ INLINE_DIRECTIVES = [
     "-- sqlfluff:rules:capitalisation.keywords:capitalisation_policy:upper",
     "-- sqlfluff:indentation:tab_space_size:2",
     "-- sqlfluff:layout:type:comma:line_position:leading",
+    "-- sqlfluff:dialect:bigquery",
+    "-- sqlfluff:dialect:postgres",
 ]
 
 
@@ -334,7 +336,7 @@ def gen_fix_world(rng: Rng, feats: Optional[dict] = None) -> dict:
     elif sup_cfg == "warn_prs":
         root_core["warnings"] = "PRS"
     cfg_sections: dict[str, dict] = {"sqlfluff": root_core}
-    if rng.chance(0.15):
+    if rng.chance(0.3):
         cfg_sections["sqlfluff:rules:references.consistent"] = {"force_enable": "True"}
     if templater == "placeholder":
         cfg_sections["sqlfluff:templater:placeholder"] = {"param_style": "colon"}
